@@ -71,6 +71,9 @@ def run(ck: Checker, prog: Program, tier: str):
         ck.guard(c12._r3, ck, prog, prog.func(c12.W), prog.func(c12.R))
     with ck.borrow(c20, "C05.R3+"):
         ck.guard(c20._r4, ck, prog)
+    # "after any history": a figure drawn in between must leave the accept masks as they were (rules of C20)
+    with ck.borrow(c20, "C05.R2+"):
+        ck.guard(c20._read_only, ck, prog)
     # "windows without a peak never enter the resonance statistics": the per-window peak search records NaN / False for an
     # absent peak on every path, and the curves the statistics describe are private copies (rules of C08)
     from . import c08
